@@ -4,6 +4,8 @@
 
 pub enum Ordering { Relaxed, Release, Acquire, AcqRel, SeqCst }
 
+pub uninterp spec fn wall_now() -> u64;
+
 #[verifier::external_body]
 pub struct AtomicU64 { _p: () }
 impl AtomicU64 {
@@ -75,6 +77,8 @@ pub struct Record {
 // record.rs calculate_size agree: Kani record_size_formulas_agree / record_size_formula_all_lengths)
 pub uninterp spec fn record_overhead() -> nat;
 pub uninterp spec fn rec_value_len(r: &Record) -> nat;
+// the value bytes a generation holds in memory (None once offloaded or when deferred)
+pub uninterp spec fn rec_resident(r: &Record) -> Option<Seq<u8>>;
 pub open spec fn rec_size(r: &Record) -> nat {
     record_overhead() + r.key@.len() + rec_value_len(r)
 }
@@ -100,13 +104,13 @@ impl Record {
     }
     #[verifier::external_body]
     pub fn new_from_bytes(key: Vec<u8>, value: Bytes, timestamp: u64) -> (r: Record)
-        ensures r.key@ == key@, r.timestamp == timestamp, rec_value_len(&r) == value.view().len(), r.ttl_expiry.val() == 0,
+        ensures r.key@ == key@, r.timestamp == timestamp, rec_value_len(&r) == value.view().len(), r.ttl_expiry.val() == 0, rec_resident(&r) == Some(value.view()),
     {
         unimplemented!()
     }
     #[verifier::external_body]
     pub fn new_from_bytes_with_ttl(key: Vec<u8>, value: Bytes, timestamp: u64, ttl_expiry: u64) -> (r: Record)
-        ensures r.key@ == key@, r.timestamp == timestamp, rec_value_len(&r) == value.view().len(), r.ttl_expiry.val() == ttl_expiry,
+        ensures r.key@ == key@, r.timestamp == timestamp, rec_value_len(&r) == value.view().len(), r.ttl_expiry.val() == ttl_expiry, rec_resident(&r) == Some(value.view()),
     {
         unimplemented!()
     }
@@ -175,12 +179,14 @@ impl OccupiedEntry {
 #[verifier::external_body]
 pub struct HashIndex { _p: () }
 impl HashIndex {
+    // the generation the index holds for a key at the time of the call (A3: stable within one call)
+    pub uninterp spec fn lookup(&self, key: Seq<u8>) -> Option<Arc<Record>>;
     #[verifier::external_body]
     pub fn entry(&self, key: Vec<u8>) -> scc::hash_map::Entry { unimplemented!() }
     // self.hash_table.read(key, |_, v| v.clone())   (rule R-hread)
     #[verifier::external_body]
     pub fn read_arc(&self, key: &[u8]) -> (r: Option<Arc<Record>>)
-        ensures r matches Some(a) ==> a.key@.len() <= 0x10_0000,
+        ensures r matches Some(a) ==> a.key@.len() <= 0x10_0000, r == self.lookup(key@),
     {
         unimplemented!()
     }
@@ -261,6 +267,7 @@ pub struct FeoxStore {
     pub version_clock: VersionClock,
     pub enable_ttl: bool,
     pub memory_only: bool,
+    pub format_version: u32,
     pub enable_caching: bool,
     pub cache: Option<CacheH>,
     pub write_buffer: Option<WriteBufferH>,
@@ -337,8 +344,13 @@ pub fn rng_handle() -> RngH { unimplemented!() }
 pub fn sample_ttl_entries(hash_table: &HashIndex, sample_size: usize, rng: &mut RngH) -> Vec<(Vec<u8>, Arc<Record>)> { unimplemented!() }
 
 impl FeoxStore {
+    // the wall clock: one fixed arbitrary value per call (A4)
     #[verifier::external_body]
-    pub fn get_timestamp_pub(&self) -> u64 { unimplemented!() }
+    pub fn get_timestamp_pub(&self) -> (t: u64)
+        ensures t == wall_now(),
+    {
+        unimplemented!()
+    }
     #[verifier::external_body]
     pub fn get_hash_table(&self) -> &HashIndex { unimplemented!() }
     #[verifier::external_body]
